@@ -28,6 +28,7 @@ const (
 	PkgTaskfile    = Mod + "/taskfile"
 	PkgErrors      = Mod + "/errors"
 	PkgExecext     = Mod + "/internal/execext"
+	PkgFilepathext = Mod + "/internal/filepathext"
 	PkgFingerprint = Mod + "/internal/fingerprint"
 	PkgOutput      = Mod + "/internal/output"
 	PkgTemplater   = Mod + "/internal/templater"
